@@ -152,7 +152,77 @@ theorem augIntensity_perm (env : Env) (dflt : Cfg) {l l' : List String} (h : l.P
     | leaf v => simp only [hp.isEmpty_eq]
     | node kvs => simp only [hp.all_eq, intLoop_perm kvs hp]
 
-/-! ### the loop as it is in /repo -/
+/-! ### `Geo.read` / `Geo.write` against the TREE that is returned -/
+
+def geoKeys : List String :=
+  ["rotation", "scale", "translate_width", "translate_height", "affine_p", "erase_p", "mixup_p"]
+
+theorem Geo.read_eq {kvs : Kvs} {g : Geo} (h : Geo.read kvs = some g) :
+    lookup "rotation" kvs = some g.rotation ∧ lookup "scale" kvs = some g.scale ∧
+    lookup "translate_width" kvs = some g.tw ∧ lookup "translate_height" kvs = some g.th ∧
+    lookup "affine_p" kvs = some g.affineP ∧ lookup "erase_p" kvs = some g.eraseP ∧
+    lookup "mixup_p" kvs = some g.mixupP := by
+  unfold Geo.read at h
+  split at h
+  · rename_i r s tw th a e m h1 h2 h3 h4 h5 h6 h7
+    simp only [Option.some.injEq] at h
+    subst h
+    exact ⟨h1, h2, h3, h4, h5, h6, h7⟩
+  · cases h
+
+theorem hasKey_of_lookup {k : String} {kvs : Kvs} {v : Cfg} (h : lookup k kvs = some v) :
+    hasKey k kvs = true := by unfold hasKey; rw [h]; rfl
+
+@[simp] theorem keys_write (g : Geo) (kvs : Kvs) : keys (g.write kvs) = keys kvs := by
+  unfold Geo.write; simp only [keys_setKey]
+
+/-- every one of the seven fields is written under ITS OWN key -/
+theorem lookup_write (g' : Geo) {kvs : Kvs} {g : Geo} (h : Geo.read kvs = some g) :
+    lookup "rotation" (g'.write kvs) = some g'.rotation ∧ lookup "scale" (g'.write kvs) = some g'.scale ∧
+    lookup "translate_width" (g'.write kvs) = some g'.tw ∧
+    lookup "translate_height" (g'.write kvs) = some g'.th ∧
+    lookup "affine_p" (g'.write kvs) = some g'.affineP ∧ lookup "erase_p" (g'.write kvs) = some g'.eraseP ∧
+    lookup "mixup_p" (g'.write kvs) = some g'.mixupP := by
+  obtain ⟨h1, h2, h3, h4, h5, h6, h7⟩ := Geo.read_eq h
+  have k1 := hasKey_of_lookup h1; have k2 := hasKey_of_lookup h2; have k3 := hasKey_of_lookup h3
+  have k4 := hasKey_of_lookup h4; have k5 := hasKey_of_lookup h5; have k6 := hasKey_of_lookup h6
+  have k7 := hasKey_of_lookup h7
+  unfold Geo.write
+  refine ⟨?_, ?_, ?_, ?_, ?_, ?_, ?_⟩
+  · rw [lookup_setKey_ne _ _ (by decide), lookup_setKey_ne _ _ (by decide), lookup_setKey_ne _ _ (by decide),
+      lookup_setKey_ne _ _ (by decide), lookup_setKey_ne _ _ (by decide), lookup_setKey_ne _ _ (by decide)]
+    exact lookup_setKey_self k1
+  · rw [lookup_setKey_ne _ _ (by decide), lookup_setKey_ne _ _ (by decide), lookup_setKey_ne _ _ (by decide),
+      lookup_setKey_ne _ _ (by decide), lookup_setKey_ne _ _ (by decide)]
+    exact lookup_setKey_self (by simp only [hasKey_setKey]; exact k2)
+  · rw [lookup_setKey_ne _ _ (by decide), lookup_setKey_ne _ _ (by decide), lookup_setKey_ne _ _ (by decide),
+      lookup_setKey_ne _ _ (by decide)]
+    exact lookup_setKey_self (by simp only [hasKey_setKey]; exact k3)
+  · rw [lookup_setKey_ne _ _ (by decide), lookup_setKey_ne _ _ (by decide), lookup_setKey_ne _ _ (by decide)]
+    exact lookup_setKey_self (by simp only [hasKey_setKey]; exact k4)
+  · rw [lookup_setKey_ne _ _ (by decide), lookup_setKey_ne _ _ (by decide)]
+    exact lookup_setKey_self (by simp only [hasKey_setKey]; exact k5)
+  · rw [lookup_setKey_ne _ _ (by decide)]
+    exact lookup_setKey_self (by simp only [hasKey_setKey]; exact k6)
+  · exact lookup_setKey_self (by simp only [hasKey_setKey]; exact k7)
+
+/-- … and nothing else is touched -/
+theorem lookup_write_other (g' : Geo) (kvs : Kvs) {k : String} (hk : k ∉ geoKeys) :
+    lookup k (g'.write kvs) = lookup k kvs := by
+  simp only [geoKeys, List.mem_cons, List.not_mem_nil, or_false, not_or] at hk
+  obtain ⟨n1, n2, n3, n4, n5, n6, n7⟩ := hk
+  unfold Geo.write
+  rw [lookup_setKey_ne _ _ (Ne.symm n7), lookup_setKey_ne _ _ (Ne.symm n6), lookup_setKey_ne _ _ (Ne.symm n5),
+    lookup_setKey_ne _ _ (Ne.symm n4), lookup_setKey_ne _ _ (Ne.symm n3), lookup_setKey_ne _ _ (Ne.symm n2),
+    lookup_setKey_ne _ _ (Ne.symm n1)]
+
+theorem read_write (g' : Geo) {kvs : Kvs} {g : Geo} (h : Geo.read kvs = some g) :
+    Geo.read (g'.write kvs) = some g' := by
+  obtain ⟨h1, h2, h3, h4, h5, h6, h7⟩ := lookup_write g' h
+  unfold Geo.read
+  rw [h1, h2, h3, h4, h5, h6, h7]
+
+/-! ### REGRESSION RECORD: the loop as it was in /repo before ba6346f (F-C20) -/
 
 /-- closed form of the as-is loop, valid when all affine names in the list are the same name -/
 def asIsClosed (acc : Geo) (l : List GeoName) : Geo :=
